@@ -12,9 +12,9 @@ CONSTANTS
   Depth = 2
   IScale = 4
   MaxData2 = 6
-  Modes = {"store1", "store2", "data1", "lin1", "data2", "lin2"}
+  Modes = {"store1", "store2", "data1", "lin1", "data2", "lin2", "fine1", "fine2"}
   Emit = FALSE
   Positional = FALSE
 VIEW View
-INVARIANTS Shape Fresh QuadSum Interp LinExact
+INVARIANTS Shape Fresh QuadSum Interp LinExact FineLaws
 CHECK_DEADLOCK FALSE
